@@ -181,15 +181,15 @@ theorem exec_skipped_keeps_values : ∀ (s : SStmt) (gs : List (SVal × Bool)), 
   | .for_ tg it b e, gs, hg, σ, σ', h => by
     cases tg with
     | name v =>
-      cases e with
-      | cons _ _ => simp [exec] at h
-      | nil =>
-        simp only [exec] at h
-        cases hv : staticVals it with
-        | none => simp [hv] at h
-        | some vals =>
-          simp only [hv] at h
-          refine foldlM_sameVals _ ?_ vals σ σ' h
+      simp only [exec] at h
+      cases hv : staticVals it with
+      | none => simp [hv] at h
+      | some vals =>
+        simp only [hv] at h
+        split at h
+        · rename_i σ1 hfold
+          refine SameVals.trans (foldlM_sameVals _ ?_ vals σ σ1 hfold)
+            (execList_skipped_keeps_values e gs hg σ1 σ' h)
           intro σa val σb hstep
           cases hx : semW σa (toP val) with
           | none => simp [hx] at hstep
@@ -201,6 +201,7 @@ theorem exec_skipped_keeps_values : ∀ (s : SStmt) (gs : List (SVal × Bool)), 
               simp only [ha] at hstep
               exact (assignG_skipped gs hg σa σc v x ha).trans
                 (execList_skipped_keeps_values b gs hg σc σb hstep)
+        · cases h
     | _ => simp [exec] at h
   | .ann _ _ _, _, _, _, _, h => by simp [exec] at h
   | .ret _, _, _, _, _, h => by simp [exec] at h
